@@ -150,6 +150,39 @@ PROPS["C03"] = dict(
     note="Trusted: monotonic clocks, SQLite, hash contracts of C13, solvers, pyvc.",
 )
 
+PROPS["C08"] = dict(
+    modules=["contracts.C06_clean", "contracts.C03_inputs", "contracts.C08_claims", "contracts.C08_bounded"],
+    decided=["the claim lookup (_existing_claim) and the guard (_check_declaration) are exact against the stored tables: "
+             "new iff no attached file node has the label, no-op iff the same creator holds it in the same role, rejected "
+             "for every other claim", "_raise_if_step_exists rejects exactly an attached step with the label",
+             "_find_owning_static_tree returns None exactly when no attached tree covers the path",
+             "_declare_file creates the node only for a declarable (state, path, creator) and exactly once; its "
+             "preconditions (path unclaimed; a product is matched by no registered glob) are proved at every call site "
+             "in declare_static_files, define_step and amend_step, across the writes of the earlier iterations",
+             "declare_static_files hands a path over only to a covering tree of the same creator, declares only "
+             "unclaimed paths, leaves claims on other paths unchanged, and every requested path that is claimed afterwards "
+             "is claimed as static", "_raise_if_glob_match: returns only if no attached registration matches any product "
+             "path, raises only if one does", "register_nglob: no recorded match is an attached product or under .stepup/, "
+             "the registration is stored exactly once", "register_static_tree installs the tree only if no attached tree "
+             "covers it or lies below it and every attached file below it is the creator's own static file"],
+    undecided=["full recycling (Trellis.try_recycle / Node.reattach): assumed to leave an unknown view; covered only by "
+               "the bounded histories (finding F8)", "the text of the error messages (their order independence)",
+               "Trellis.create's effect on the view is an assumed contract", "whether convert_nglob_to_regex renders the "
+               "pattern's meaning (C17)"],
+    assumptions=["relational reading of SELECT statements (contracts/graphdb.py)", "schema facts: UNIQUE(kind, label), "
+                 "foreign keys, CHECK constraints of node, triggers keeping UNDECLARED files detached",
+                 "re.fullmatch is a function of (regex, path)"],
+    level="Function contracts over a ghost relational view of the stored graph (one uninterpreted function per table "
+          "column and database version, SELECT statements of the real code read mechanically into it) and an abstract "
+          "view of the declarations (claimed / role / creator per path, step labels, covering trees, glob matches) whose "
+          "frames are proved through every loop that writes.  The property's sentence is the postcondition or the guard "
+          "of each declaring function; the two arrival orders are the two functions that meet the same conflict "
+          "predicate.  Recycling histories are a bounded stand-in on the real code.",
+    note="Trusted: SQLite statement semantics as read by contracts/graphdb.py, schema constraints and triggers, the "
+         "assumed view effects of Trellis.create / Step.add_nglob / Node.add_source / _supply_files, the regular "
+         "expression engine, solvers, pyvc.  Known findings F3 and F8 (see known_findings.json).",
+)
+
 NOT_BUILT = {}
 
 _loaded = False
